@@ -42,7 +42,7 @@ listener = "mixin-node.example.com:7239"`
 type vtrTx struct {
 	Inputs int `json:"inputs"` // inputs (<= 256)
 	Sigs   int `json:"sigs"`   // signatures per input (<= keys per funded output)
-	Extra  int `json:"extra"`  // extra bytes (<= 256)
+	Extra  int `json:"extra"`  // extra bytes (storage transaction: up to 4 MiB)
 }
 
 type vtrCase struct {
@@ -130,7 +130,7 @@ type vtrFunds struct {
 // deposit so that one finalization stays a small Badger transaction).
 func vtrFund(t testing.TB, node *Node, outputs, keys int) *vtrFunds {
 	store := node.persistStore
-	f := &vtrFunds{asset: vtrHash("vtr-asset")}
+	f := &vtrFunds{asset: common.XINAssetId} // XIN: a spend may carry a large extra (storage transaction)
 	must := func(err error) {
 		if err != nil {
 			t.Fatalf("fund: %v", err)
@@ -141,7 +141,7 @@ func vtrFund(t testing.TB, node *Node, outputs, keys int) *vtrFunds {
 	for base := 0; base < outputs; base += per {
 		n := min(per, outputs-base)
 		tx := common.NewTransactionV5(f.asset)
-		dd := &common.DepositData{Chain: common.EthereumAssetId, AssetKey: "0xvtrverif", Transaction: fmt.Sprint("vtr:", base), Index: 0, Amount: common.NewInteger(uint64(n))}
+		dd := &common.DepositData{Chain: common.XINAsset.Chain, AssetKey: common.XINAsset.AssetKey, Transaction: fmt.Sprint("vtr:", base), Index: 0, Amount: common.NewInteger(uint64(n))}
 		tx.AddDepositInput(dd)
 		privs := make([][]crypto.Key, n)
 		pubs := make([][]*crypto.Key, n)
@@ -190,8 +190,9 @@ func vtrSpend(f *vtrFunds, tag string, inputs, sigs, extra int) *common.Versione
 		tx.AddInput(f.inputs[i].Hash, f.inputs[i].Index)
 	}
 	out := vtrPriv("vtr-out", tag).Public()
+	// one key, script fffe40, amount >= 0.4096 XIN: a storage output, the extra may be up to 4 MiB
 	tx.Outputs = append(tx.Outputs, &common.Output{Type: common.OutputTypeScript, Amount: common.NewInteger(uint64(inputs)),
-		Keys: []*crypto.Key{&out}, Mask: vtrPriv("vtr-outmask", tag).Public(), Script: common.NewThresholdScript(1)})
+		Keys: []*crypto.Key{&out}, Mask: vtrPriv("vtr-outmask", tag).Public(), Script: common.NewThresholdScript(64)})
 	ex := make([]byte, extra)
 	copy(ex, []byte(tag))
 	tx.Extra = ex
